@@ -21,7 +21,7 @@ EXHAUSTIVE_SUBDOMAINS = ["atmos on the 10 m altitude grid over [-500, 20000] m"]
 ASSUMPTIONS = ["'tabulated ISA' = analytic hydrostatic ISA with g0, R, lapse rate -6.5 K/km, isothermal above 11 km",
                "round-trip tolerance 1e-8 relative (double precision through two pow() calls)"]
 REQUIRED = ["atmos_grid", "tropopause", "roundtrip", "monotone", "sea_level", "ordering", "distance_uniform",
-            "distance_antipodal", "distance_identical", "distance_cardinal", "distance_with_H", "bearing", "array_equals_scalar", "types"]
+            "distance_antipodal", "distance_identical", "distance_cardinal", "distance_with_H", "recall_after_in_place_edit", "bearing", "array_equals_scalar", "types"]
 
 
 def rel(a, b):
@@ -228,6 +228,25 @@ def m_types(ctx, case):
         ctx.ev()
         if not (np.array_equal(Ha, Hc) and np.array_equal(x, xc)):
             ctx.violation("caller-array-modified", fn=f)
+        if ra[0] == "ok" and isinstance(ra[1], np.ndarray) and len(H) > 1:
+            # the caller re-uses its buffers: overwrite the altitude (and speed) arrays IN PLACE and edit the earlier result in
+            # place, then call again with the same objects - the answer has to be the one for the new contents
+            first = ra[1].copy()
+            try:
+                ra[1] *= 0.5
+            except Exception:
+                pass
+            Hb, xb = Ha.copy(), x.copy()
+            Hb[:] = Hb[::-1].copy()
+            rfirst = call(F, xb, Hb)
+            Hb[:] = Ha
+            xb[:] = x
+            rsecond = call(F, xb, Hb)
+            ctx.ev(2)
+            ctx.hit("recall_after_in_place_edit")
+            if rsecond[0] != "ok" or not np.allclose(rsecond[1], first, rtol=1e-10, atol=0, equal_nan=True):
+                ctx.violation("stale-or-aliased-result-after-in-place-edit", fn=f, first=repr(first)[:120], again=repr(rsecond[1:])[:120])
+            ra = ("ok", first)
         if ra[0] != "ok" or np.shape(ra[1]) != np.shape(x):
             ctx.violation("array-call-fails-or-wrong-shape", fn=f, observed=repr(ra[1:])[:120])
             continue
